@@ -2562,3 +2562,132 @@ Section Sites2.
     - exact Hwf.
   Qed.
 End Sites2.
+
+Lemma gk_block_connected_chain t h tg :
+  chain_inv t -> gk_height t <= h -> gk_block_connected t h = Ok tt tg ->
+  chain_inv tg /\ r_index tg = r_index t /\ gk_height tg = h.
+Proof.
+  intros [C1 C2 C3 C4] Hle. unfold gk_block_connected.
+  destruct (outdated_users (c_delta (cfg t)) h (gk_users t)) as [out|]; [|discriminate].
+  destruct out as [|o out]; intros E; inversion E; clear E; cbv iota.
+  - split; [|split; reflexivity]. constructor; unfold heights_ok; cbn [db_trks gk_height r_index car_memo reorged set_gk_height]; try assumption.
+    + intros k Hk Hc Hr. specialize (C1 k Hk Hc Hr). lia.
+    + lia.
+  - split; [|split; reflexivity]. unfold p_purge, db_delete_users.
+    constructor; unfold heights_ok; cbn [db_trks gk_height r_index car_memo reorged set_gk_height set_db_trks set_db_apps set_db_users set_gk_users];
+      try assumption.
+    + intros k Hk Hc Hr. apply filter_In in Hk. destruct Hk as [Hk _]. specialize (C1 k Hk Hc Hr). lia.
+    + lia.
+Qed.
+
+Lemma index_height_stableW (i : txindex N) (h : N) : StableW (fun t => r_index t = i /\ gk_height t = h).
+Proof.
+  constructor.
+  - intros t t' [_ [_ [Hh [_ [_ [_ [Hi _]]]]]]] [H1 H2]. split; congruence.
+  - intros sc t x H. destruct (send_spec sc t x) as [m [l [Es _]]]. rewrite Es. exact H.
+  - intros t us H. exact H.
+  - intros t k H _ _ _. exact H.
+Qed.
+
+Lemma mem_uuid_marked_false (p : trk -> bool) l k :
+  In k l -> mem_uuid (trk_uuid k) (map trk_uuid (filter p l)) = false -> p k = false.
+Proof.
+  intros Hk Hm. destruct (p k) eqn:Ep; [|reflexivity]. apply mem_uuid_false in Hm. exfalso. apply Hm.
+  apply in_map. apply filter_In. tauto.
+Qed.
+
+(* one step keeps the invariant; a connected block must carry a hash the responder's index does not hold *)
+Lemma step_chain le t o sc :
+  Inv t -> chain_inv t ->
+  match o with OConnect hash _ => ~ In hash (ti_blocks (r_index t)) | _ => True end ->
+  not_abort (snd (step le t o sc)) -> chain_inv (fst (step le t o sc)).
+Proof.
+  intros HI HC Hfresh.
+  assert (HCf : chain_inv (set_rpc_log t [])) by (eapply chain_inv_core; [|exact HC]; repeat split).
+  assert (HIf : Inv (set_rpc_log t [])) by (eapply inv_frame; [|exact HI]; repeat split).
+  destruct o as [u|signer loc b delay sig|signer loc|signer|hash txs|].
+  - cbn [step]. pose proof (add_update_user_chain (fun _ => True) (fun _ => I) (set_rpc_log t []) u HCf) as Hp.
+    destruct (gk_add_update_user (set_rpc_log t []) u); cbn [wrap fst snd]; [intros _; exact Hp|intros []].
+  - cbn [step]. pose proof (add_appointment_chain (fun _ => True) (fun _ => I) sc (set_rpc_log t []) signer loc b delay sig HCf) as Hp.
+    destruct (w_add_appointment sc (set_rpc_log t []) signer loc b delay sig); cbn [wrap fst snd]; [intros _; exact Hp|intros []].
+  - destruct (get_unchanged le t sc signer loc) as [r Er]. rewrite Er. intros _. exact HCf.
+  - destruct (getsub_unchanged le t sc signer) as [r Er]. rewrite Er. intros _. exact HCf.
+  - cbn [step]. change Consts.LISTENER_ORDER with [0%Z; 1%Z; 2%Z]. cbn [run_listeners].
+    change (gk_height (set_rpc_log t [])) with (gk_height t).
+    unfold listener_connected. cbn [Z.eqb Pos.eqb]. set (h := gk_height t + 1).
+    destruct (gk_block_connected (set_rpc_log t []) h) as [[] tg|s tg] eqn:Eg; cbn [bind wrap fst snd]; [|intros []].
+    destruct (gk_block_connected_chain _ h tg HCf) as [HCg [Hig Hhg]];
+      [cbn [gk_height set_rpc_log]; unfold h; lia|exact Eg|].
+    assert (HIg : Inv tg).
+    { pose proof (gk_block_connected_pres Inv (sa_block _ inv_stable) _ h HIf) as Hpp. rewrite Eg in Hpp. exact Hpp. }
+    pose proof (w_block_connected_presW _ chain_inv_stableW (fun _ => True) (fun _ => I) sc tg (cache_block hash txs) h HCg) as HCw.
+    pose proof (w_block_connected_presW _ (index_height_stableW (r_index tg) h) (fun _ => True) (fun _ => I) sc tg
+                  (cache_block hash txs) h (conj eq_refl Hhg)) as Hiw.
+    pose proof (w_block_connected_pres Inv (sb_wr _ (sa_block _ inv_stable)) sc tg (cache_block hash txs) h HIg) as HIw.
+    destruct (w_block_connected sc tg (cache_block hash txs) h) as [[] tw|s tw]; cbn [bind wrap fst snd]; [|intros []].
+    cbn [pres2 pres] in HCw, Hiw, HIw. destruct Hiw as [Hiw Hhw].
+    assert (Hidx : r_index tw = r_index t) by (rewrite Hiw, Hig; reflexivity).
+    pose proof (r_block_connected_chain (fun _ => True) (fun _ => I) le sc tw (index_block hash txs) h HIw HCw Hhw) as Hp.
+    destruct (r_block_connected le sc tw (index_block hash txs) h); cbn [wrap fst snd]; [intros _|intros []].
+    apply Hp.
+    + rewrite Hidx. pose proof (ci_tip _ HC). unfold h. lia.
+    + rewrite Hidx. exact Hfresh.
+  - cbn [step]. destruct (last_hash (set_rpc_log t [])) as [hash|] eqn:El; [|intros _; exact HCf].
+    change Consts.LISTENER_ORDER with [0%Z; 1%Z; 2%Z]. cbn [run_listeners].
+    change (gk_height (set_rpc_log t [])) with (gk_height t).
+    unfold listener_disconnected. cbn [Z.eqb Pos.eqb].
+    unfold gk_block_disconnected, w_block_disconnected.
+    destruct (u32_sub (gk_height t) 1) as [h'|] eqn:Eh; cbn [bind wrap fst snd]; [|intros []].
+    unfold r_block_disconnected. cbn [bind wrap fst snd]. intros _.
+    assert (Hh' : h' = gk_height t - 1 /\ 1 <= gk_height t).
+    { unfold u32_sub in Eh. destruct (N.leb_spec 1 (gk_height t)); [|discriminate]. inversion Eh. split; [reflexivity|assumption]. }
+    destruct Hh' as [Hh' Hge]. destruct HC as [C1 C2 C3 C4].
+    unfold last_hash in El. cbn [r_index set_rpc_log] in El.
+    destruct (idx_wf_disconnect _ hash C4 El) as [Hwf Htip].
+    constructor; unfold heights_ok; cbn [db_trks gk_height r_index car_memo reorged set_reorged set_r_index set_car_height set_w_height
+                      set_w_cache set_gk_height set_rpc_log].
+    + intros k Hk Hc Hr. rewrite mem_uuid_app in Hr. apply orb_false_iff in Hr. destruct Hr as [Hr1 Hr2].
+      rewrite mem_uuid_filter, Hr1 in Hr2. cbn [negb] in Hr2. rewrite andb_true_r in Hr2.
+      apply (mem_uuid_marked_false _ _ _ Hk) in Hr2. cbv beta in Hr2. rewrite Hc in Hr2. cbn [andb] in Hr2. apply N.eqb_neq in Hr2.
+      specialize (C1 k Hk Hc Hr1). lia.
+    + rewrite Htip. lia.
+    + exact C3.
+    + exact Hwf.
+Qed.
+
+(* every block handed to the tower carries a hash the responder's index does not currently hold *)
+Fixpoint fresh_hashes (le : bool) (t : tower) (hist : list (op * script)) : Prop :=
+  match hist with
+  | [] => True
+  | (o, sc) :: r =>
+      match o with OConnect hash _ => ~ In hash (ti_blocks (r_index t)) | _ => True end /\
+      fresh_hashes le (fst (step le t o sc)) r
+  end.
+
+Theorem chain_inv_run le : forall hist t,
+  Inv t -> chain_inv t -> fresh_hashes le t hist -> Forall not_abort (snd (run le t hist)) ->
+  chain_inv (fst (run le t hist)).
+Proof.
+  induction hist as [|[o sc] hist IH]; intros t HI HC Hf; cbn [run]; [intros _; exact HC|].
+  cbn [fresh_hashes] in Hf. destruct Hf as [Hf1 Hf2].
+  pose proof (step_chain le t o sc HI HC Hf1) as H1.
+  pose proof (step_pres Inv inv_stable le t o sc HI) as H2.
+  destruct (step le t o sc) as [t1 x]. cbn [fst snd] in *.
+  destruct x; try (specialize (IH t1); destruct (run le t1 hist) as [t2 xs]; cbn [fst snd] in *;
+                   intros Hall; inversion Hall; subst; apply IH; [apply H2; exact I|apply H1; exact I|exact Hf2|assumption]).
+  cbn [fst snd]. intros Hall. inversion Hall; subst. contradiction.
+Qed.
+
+(* 7. From the bootstrap, along any history of requests, connections (with fresh block hashes) and
+   disconnections in which no handler aborted: every tracker recorded as ConfirmedIn h and not
+   waiting for re-announcement has h <= the height of the active chain's tip. *)
+Theorem confirmed_on_active_chain le c h0 boot t0 hist :
+  init c h0 boot = Some t0 -> NoDup (map fst boot) -> fresh_hashes le t0 hist ->
+  Forall not_abort (snd (run le t0 hist)) ->
+  forall k, In k (db_trks (fst (run le t0 hist))) -> t_conf k = true ->
+            mem_uuid (trk_uuid k) (reorged (fst (run le t0 hist))) = false ->
+            t_height k <= gk_height (fst (run le t0 hist)).
+Proof.
+  intros Hi Hnd Hf Hna.
+  exact (ci_heights _ (chain_inv_run le hist t0 (inv_init _ _ _ _ Hi) (chain_inv_init _ _ _ _ Hi Hnd) Hf Hna)).
+Qed.
